@@ -42,8 +42,12 @@ type mEntry struct {
 }
 
 type model struct {
-	fold       bool // case-insensitive names
-	hiddenOn   bool // names starting with ".hid" are hidden files
+	fold     bool // case-insensitive names
+	hiddenOn bool // names starting with ".hid" are hidden files
+	// hiddenFn, if set, replaces the ".hid" rule. It is always applied to
+	// the name an entry was CREATED under (never to its normalised form),
+	// as every listing site of the implementation does.
+	hiddenFn   func(string) bool
 	nextSerial int
 	nextNode   int
 
@@ -68,7 +72,12 @@ func (m *model) norm(s string) string {
 	return s
 }
 
-func (m *model) isHidden(name string) bool { return m.hiddenOn && strings.HasPrefix(name, ".hid") }
+func (m *model) isHidden(name string) bool {
+	if m.hiddenFn != nil {
+		return m.hiddenFn(name)
+	}
+	return m.hiddenOn && strings.HasPrefix(name, ".hid")
+}
 
 func (m *model) newDir(fs int, lz *mLazy) *mNode {
 	n := &mNode{id: m.nextNode, dir: true, lazy: lz, fs: fs}
